@@ -9,7 +9,7 @@ mods = {}
 for f in sorted(os.listdir(os.path.join(HERE, 'props'))):
     if f.startswith('c') and f.endswith('.py'):
         m = importlib.import_module('props.' + f[:-3])
-        if getattr(m, 'REGISTER', True):
+        if hasattr(m, 'ID') and hasattr(m, 'run_shard') and getattr(m, 'REGISTER', True):
             mods[m.ID] = m
 checks = []
 na = []
